@@ -34,7 +34,7 @@ func init() {
 	Register(&Check{
 		ID:    "C04",
 		Level: "exploration",
-		Rule: "(A) all priority vectors over 3 services for one tag, each service in {not tagged, -1, 0 string form, 0 map form, 1, maxint} (6^3; thorough adds minint and a second tag: 7^3 + 12^3), consumers requesting !tagged as constructor argument, field and call argument; (B) all decorator/tag incidence matrices for 2 decorators x 2 tags x 2 services (4 x 16) x 3 decorator argument sets; (C) 3 decorators (distinct functions; the same function told apart by its arguments) and split tag lists distributed over 3 files in all 27 assignments; (E) tag lists of two services extended by later files in all 8 combinations; (F) every decorator word of length <= 3 (thorough 4) over two tags on services carrying both / one of them; (G) decorators and calls arriving through one pattern with a wildcard directory segment (6 directory pairs); (H) thirteen carriers whose names differ in case, digits and separators; (D) scopes of tagged services (shared, non_shared, contextual). " +
+		Rule: "(A) all priority vectors over 3 services for one tag, each service in {not tagged, -1, 0 string form, 0 map form, 1, maxint} (6^3; thorough adds minint and a second tag: 7^3 + 12^3), consumers requesting !tagged as constructor argument, field and call argument; (B) all decorator/tag incidence matrices for 2 decorators x 2 tags x 2 services (4 x 16) x 3 decorator argument sets; (C) 3 decorators (distinct functions; the same function told apart by its arguments) and split tag lists distributed over 3 files in all 27 assignments; (E) tag lists of two services extended by later files in all 8 combinations; (F) every decorator word of length <= 3 (thorough 4) over two tags on services carrying both / one of them; (G) decorators and calls arriving through one pattern with a wildcard directory segment (6 directory pairs); (H) thirteen carriers whose names differ in case, digits and separators; (I) services registered at run time with tags (OverrideService on a todo placeholder and on a new name), decorators for tags no configured service carries; (D) scopes of tagged services (shared, non_shared, contextual). " +
 			"Each configuration is executed in a probe (Get consumer, GetTaggedBy, Get of every carrier, GetInContext) and compared with the reference model. non-trivial/distinct = distinct executed configuration",
 		Assumptions: []string{"decorator tag '*' is outside the statement (the documentation does not define it) and is not generated"},
 		BudgetQuick: 280 * time.Second, BudgetThorough: 1500 * time.Second,
@@ -304,6 +304,31 @@ func init() {
 					cfg.Services = append(cfg.Services, Service{Name: "consumer", Constructor: P("pk2.New"), Args: []any{"!tagged t", "!tagged u"}})
 					cases = append(cases, &BCase{ID: fmt.Sprintf("H/name-order=%d", v), Cfg: cfg, Sessions: []BSession{{Ops: []ProbeOp{op("get", "consumer"), opTag("tagged", "t"), opTag("tagged", "u"), opCtx("taggedctx", "A", "t")}}}})
 				}
+			}
+			// (I) services that arrive at run time (OverrideService, the documented way to fill a todo placeholder) carry tags
+			// too: decorators declared for a tag apply to them, also when no configured service carries that tag
+			for v := 0; v < 4; v++ {
+				cfg := &Cfg{Meta: stdMeta()}
+				cfg.Services = []Service{
+					{Name: "sa", Constructor: P("pk.New1"), Tags: []Tag{{Name: "t"}}},
+					{Name: "late", Todo: P(true), Tags: []Tag{{Name: "t", Priority: P(9)}}},
+					{Name: "consumer", Constructor: P("pk2.New"), Args: []any{"!tagged t", "!tagged rt"}, Scope: P("non_shared")},
+				}
+				cfg.Decorators = []Decorator{{Tag: "rt", Decorator: "pk.Dec1", Args: []any{"only-runtime-services-carry-rt"}}, {Tag: "t", Decorator: "pk2.Dec2"}, {Tag: "rt", Decorator: "pk.Dec3", Args: []any{2}}}
+				var tags []string
+				if v&1 != 0 {
+					tags = append(tags, "rt")
+				}
+				if v&2 != 0 {
+					tags = append(tags, "t")
+				}
+				ov := ProbeOp{Op: "overrideService", Name: "late", Val: &ProbeSpec{Kind: "ctor", Ctor: "fx/pk.New2", Args: []any{"arrived"}, Tags: tags}}
+				ov2 := ProbeOp{Op: "overrideService", Name: "brandNew", Val: &ProbeSpec{Kind: "ctor", Ctor: "fx/pk.New", Args: []any{"never declared"}, Tags: tags}}
+				after := []ProbeOp{op("get", "late"), opTag("tagged", "rt"), opTag("tagged", "t"), op("get", "consumer"), opCtx("taggedctx", "A", "rt")}
+				cases = append(cases, &BCase{ID: fmt.Sprintf("I/runtime-tags=%02b", v), Cfg: cfg, Sessions: []BSession{
+					{Ops: append([]ProbeOp{ov}, after...)},
+					{Ops: append([]ProbeOp{opTag("tagged", "t"), op("get", "consumer"), ov, ov2}, append(after, op("get", "brandNew"))...)},
+				}})
 			}
 			// (D) scopes of carriers
 			scopes := []*string{nil, P("shared"), P("non_shared"), P("contextual")}
